@@ -80,8 +80,28 @@ theorem stateAfter_intrinsic (st : SeqState) (xs : List SeqItem) :
         · simp [ih]
         · split <;> simp [ih]
 
+theorem declaredIn_eq_declared (s : Nat) (xs : List SeqItem) : declaredIn s xs = declared s xs := by
+  induction xs with
+  | nil => rfl
+  | cons i is ih => cases i <;> simp [declaredIn, declared, ih]
+
+theorem declared_append (s : Nat) (xs ys : List SeqItem) : declared s (xs ++ ys) = declared s xs ++ declared s ys := by
+  induction xs with
+  | nil => rfl
+  | cons i is ih =>
+    cases i with
+    | decl s' c => by_cases h : s' = s <;> simp [declared, h, ih]
+    | define id => simp [declared, ih]
+    | site m x a => simp [declared, ih]
+    | helper j m a => simp [declared, ih]
+    | trigger j z => simp [declared, ih]
+
+theorem declared_of_not_decl (s : Nat) (it : SeqItem) (h : allDeclared [it] = []) : declared s [it] = [] := by
+  cases it <;> simp_all [allDeclared, declared]
+
 /-- the methods were all registered before the first body -/
-theorem stateAfter_method (st : SeqState) (xs : List SeqItem) : (stateAfter .method st xs).root = st.root := by
+theorem stateAfter_method (st : SeqState) (xs : List SeqItem) :
+    (stateAfter .method st xs).root = st.root ∧ (stateAfter .method st xs).ns = st.ns := by
   induction xs generalizing st with
   | nil => simp [stateAfter]
   | cons i is ih =>
@@ -114,10 +134,19 @@ theorem visible_eq_visibleAt (p : SeqPath) (pre post : List SeqItem) (it : SeqIt
     | _ + 3 => rfl
   | method =>
     have hr := stateAfter_method (SeqState.init .method (pre ++ it :: post)) pre
-    have : allDeclared (pre ++ it :: post) = allDeclared (pre ++ post) := by
-      rw [allDeclared_append, allDeclared_append, show it :: post = [it] ++ post from rfl, allDeclared_append, hit]; rfl
+    have this : ∀ s, declaredIn s (pre ++ it :: post) = declared s (pre ++ post) := by
+      intro s
+      rw [declaredIn_eq_declared, declared_append, declared_append, show it :: post = [it] ++ post from rfl,
+        declared_append, declared_of_not_decl s it hit]; rfl
     simp only [SeqState.init, this] at hr
-    simp only [SeqState.visible, visibleAt, SeqState.init, this, hr]
+    simp only [SeqState.visible, visibleAt, SeqState.init, this]
+    simp only [hr.1, hr.2]
+    match m with
+    | 0 => rfl
+    | 1 => rfl
+    | 2 => rfl
+    | 3 => rfl
+    | _ + 4 => rfl
   | intrinsic =>
     have hr := stateAfter_intrinsic (SeqState.init .intrinsic (pre ++ it :: post)) pre
     simp only [SeqState.init, List.nil_append] at hr
